@@ -928,7 +928,12 @@ func (tkn *Tokenizer) scanString(delim uint16, typ int) (int, []byte) {
 				tkn.next()
 				continue
 			}
-			if decodedChar := sqltypes.SQLDecodeMap[byte(tkn.lastChar)]; decodedChar == sqltypes.DontEscape {
+			if tkn.IsMySQL() && (tkn.lastChar == '%' || tkn.lastChar == '_') {
+				// MySQL keeps the backslash of \% and \_ in the string value (they are
+				// LIKE pattern escapes): dropping it turns `like 'a\%'` into `like 'a%'`.
+				buffer.WriteByte('\\')
+				ch = tkn.lastChar
+			} else if decodedChar := sqltypes.SQLDecodeMap[byte(tkn.lastChar)]; decodedChar == sqltypes.DontEscape {
 				ch = tkn.lastChar
 			} else {
 				ch = uint16(decodedChar)
